@@ -204,13 +204,7 @@ def run(rep, tier, seed, replay=None):
                 continue
             hy = hyps.get((case, q), set())
             key = None
-            if kind in ("features", "isinside"):
-                if "sqrt-ov" in hy:
-                    key = "C15:feature-sqrt-stale-ov"
-                elif "setCount" in hy:
-                    key = "C15:feature-binary-setCount"
-            if key is None:
-                failed.add(case)
+            failed.add(case)
             prog = by_case[case]["lines"]
             rep.violation("long-lived evaluator answers %s differently from a fresh one (query #%d): %s vs %s"
                           % (kind, q, " ".join(a[:12]), " ".join(b[:12])),
